@@ -282,7 +282,9 @@ impl Component for Conn {
             return gen_straddle_case(rng);
         }
         let n = rng.range(1, 4) as usize;
-        let mut ops = vec![format!("new {n}")];
+        // two cases in three run with production-width conn ids (>= 2^32, low 32 bits distinct per link)
+        let idb: u64 = if rng.chance(2, 3) { ((1 + rng.below(1_000_000_000)) << 32) | (rng.below(65_521) << 16) } else { 0 };
+        let mut ops = vec![if idb == 0 { format!("new {n}") } else { format!("new {n} {idb}") }];
         let base: u32 = match rng.below(4) {
             0 => rng.below(50) as u32,
             1 => 0x7fff_0000 + rng.below(0x8000) as u32,
@@ -467,8 +469,9 @@ impl Component for Conn {
                         let cid = match rng.below(5) {
                             0 => 0,
                             1 => 99,
-                            2 => n as u64 + 1 + rng.below(3),
-                            _ => 1 + rng.below(n as u64),
+                            2 => idb + n as u64 + 1 + rng.below(3),
+                            3 => (idb + 1 + rng.below(n as u64)) & 0xffff_ffff, // a present id narrowed to 32 bits
+                            _ => idb + 1 + rng.below(n as u64),
                         };
                         let t = now.saturating_sub(*rng.pick(&[0u64, 0, 1, 4999, 5000, 5001]));
                         ops.push(format!("trk {s} {cid} {t}"));
@@ -560,12 +563,20 @@ impl Component for Conn {
     fn exec(&mut self, toks: &[&str], mon: &mut Mon) -> String {
         let op = toks.join(" ");
         match toks {
-            ["new", n] => {
+            ["new", n] | ["new", n, _] => {
                 let Ok(n) = n.parse::<usize>() else { return "bad-op".into() };
+                // conn ids are `base + i + 1`: production ids are random u64s, far above 2^32
+                let base: u64 = match toks.get(2) {
+                    None => 0,
+                    Some(b) => match b.parse::<u64>() {
+                        Ok(b) if b <= u64::MAX - 1000 => b,
+                        _ => return "bad-op".into(),
+                    },
+                };
                 self.links.clear();
                 for i in 0..n {
                     let c = SrtlaConnection::new_registering(
-                        (i + 1) as u64,
+                        base + (i + 1) as u64,
                         format!("l{i}"),
                         IpAddr::V4(Ipv4Addr::new(127, 0, 0, 1)),
                         0,
